@@ -150,7 +150,7 @@ def _cases(tier, rng):
     names = sorted(formulas.get_functions())
     scal, arrays, ranges, _ = _pool()
     specs = [('s', i) for i in range(len(scal))] + [('a', i) for i in range(len(arrays))] + [('r', i) for i in range(len(ranges))]
-    per = 25 if tier == 'quick' else 400
+    per = 25 if tier == 'quick' else 2000
     out = []
     for name in names:
         if _strip(name) in ('NOW', 'TODAY', 'RAND', 'RANDBETWEEN'):
@@ -243,7 +243,7 @@ def _classify(case, detail):
 BOUNDED = [
     Stage('B1:totality-and-error-preservation', 'C11', _cases, _check,
           'all 247 names x arities 0..5 x pool of 14 scalars (incl. blank, 3 errors), 4 array literals, 4 ranges: every '
-          '1-argument call, 25 (quick) / 400 (thorough) random tuples per higher arity', classify=_classify, max_report=400),
+          '1-argument call, 25 (quick) / 2000 (thorough) random tuples per higher arity', classify=_classify, max_report=400),
 ]
 
 PROPERTIES = {
